@@ -407,8 +407,14 @@ def parse_masks(v):
 IMPORTS = ["Base.Bytes", "Model.Layout", "Model.LayoutSpec", "Model.KnownC11", "Corr.CheckLayout"]
 
 
+_SHOWN = [0]
+
+
 def show_paths(k, cfgv, infos, s, info, digest):
-    """(model, documents) outcome of one pair, decoded, for a replay file"""
+    """(model, documents) outcome of one pair, decoded, for a replay file (first few only)"""
+    _SHOWN[0] += 1
+    if _SHOWN[0] > 5:
+        return "n/a (diagnostics are computed for the first 5 failing inputs only)"
     try:
         t = "show_paths true %s %s %s %s" % (EXTS[k][0], raw_term(k, cfgv, infos), ustr_term(s, info), coq_str(digest))
         return common.coq_eval("c11show", IMPORTS, [t])[0]
